@@ -422,7 +422,7 @@ def run(ctx):
             evs.append({"event": "CenterPriors", "mb": quant.mb(dd), "meta_kept": True,
                         "input_untouched": bool(fp.same(holo, keep))})
         except Exception as e:
-            ctx.uncovered("make_center_priors: %r" % (e,))
+            ctx.violation("center_priors/exception", {"exc": repr(e)[:300], "npx": npx, "npy": npy})
         traces.append(evs)
         ctx.case(("center", t, npx, npy, round(fx, 3), round(fy, 3)))
     verdicts = tracemod.validate(ctx, "ImgProcTrace", traces)
